@@ -103,6 +103,11 @@ func (cfg *Config) VerifyConfig(schema base.LogSchema) error {
 		return fmt.Errorf(".serialization.environmentFields is unspecified")
 	}
 
+	for i, field := range cfg.Serialization.EnvironmentFields {
+		if _, err := schema.CreateFieldLocator(field); err != nil {
+			return fmt.Errorf(".serialization.environmentFields[%d]: %w", i, err)
+		}
+	}
 	for field, rewriteConfig := range cfg.Serialization.RewriteFields {
 		if _, err := schema.CreateFieldLocator(field); err != nil {
 			return fmt.Errorf(".serialization.rewriteFields[%s]: Field is invalid: %w", field, err)
